@@ -267,7 +267,9 @@ pub fn worker(plan: &Plan, a: &WorkerArgs) -> i32 {
             "engine": eng.name(),
             "flavour": job.flavour,
             "evals": acc.evals,
-            "nontrivial": acc.nontrivial.iter().copied().collect::<Vec<u64>>(),
+            // the hashes themselves only while the list is small; otherwise the per-worker distinct count
+            "nontrivial": if acc.nontrivial.len() <= 200_000 { acc.nontrivial.iter().copied().collect::<Vec<u64>>() } else { vec![] },
+            "nontrivial_count": acc.nontrivial.len(),
             "labels": acc.labels,
             "samples": acc.samples,
             "other_clause": acc.other_clause,
@@ -547,6 +549,9 @@ pub fn parent(plan: &Plan, a: &ParentArgs) -> i32 {
     let mut samples: Vec<Value> = vec![];
     let mut other_clause = 0u64;
     let mut per_engine: BTreeMap<u64, (String, String, u64, BTreeSet<u64>)> = BTreeMap::new();
+    // distinct counts of workers whose hash lists were too long to ship (distinct within the worker;
+    // workers run different seeds)
+    let mut counted_only: BTreeMap<u64, u64> = BTreeMap::new();
     let mut known_hits: BTreeMap<String, (u64, String)> = BTreeMap::new();
     let mut seen_viol: BTreeSet<String> = BTreeSet::new();
     for r in &results {
@@ -559,7 +564,12 @@ pub fn parent(plan: &Plan, a: &ParentArgs) -> i32 {
                 (j["engine"].as_str().unwrap_or("").to_string(), j["flavour"].as_str().unwrap_or("").to_string(), 0, BTreeSet::new())
             });
             pe.2 += e;
-            for h in j["nontrivial"].as_array().cloned().unwrap_or_default() {
+            let list = j["nontrivial"].as_array().cloned().unwrap_or_default();
+            let cnt = j["nontrivial_count"].as_u64().unwrap_or(list.len() as u64);
+            if list.is_empty() && cnt > 0 {
+                *counted_only.entry(ji).or_insert(0) += cnt;
+            }
+            for h in list {
                 if let Some(h) = h.as_u64() {
                     nontrivial.insert((ji, h));
                     pe.3.insert(h);
@@ -614,7 +624,7 @@ pub fn parent(plan: &Plan, a: &ParentArgs) -> i32 {
     let wall = start.elapsed().as_secs_f64();
     let engines: Vec<Value> = per_engine
         .iter()
-        .map(|(ji, (name, fl, e, nt))| json!({"job": ji, "engine": name, "flavour": fl, "evaluations": e, "distinct_nontrivial": nt.len()}))
+        .map(|(ji, (name, fl, e, nt))| json!({"job": ji, "engine": name, "flavour": fl, "evaluations": e, "distinct_nontrivial": nt.len() as u64 + counted_only.get(ji).copied().unwrap_or(0)}))
         .collect();
     let exhaustive = plan.jobs.iter().all(|j| j.engine.enum_len().is_some());
     let ev = json!({
@@ -624,7 +634,7 @@ pub fn parent(plan: &Plan, a: &ParentArgs) -> i32 {
         "level": plan.level,
         "coverage": {
             "evaluations": evals,
-            "distinct_nontrivial": nontrivial.len(),
+            "distinct_nontrivial": nontrivial.len() as u64 + counted_only.values().sum::<u64>(),
             "rule": plan.rule,
             "samples": samples,
             "class_histogram": labels,
@@ -653,7 +663,7 @@ pub fn parent(plan: &Plan, a: &ParentArgs) -> i32 {
         a.property,
         a.tier.name(),
         evals,
-        nontrivial.len(),
+        nontrivial.len() as u64 + counted_only.values().sum::<u64>(),
         n_viol,
         wall
     );
